@@ -1649,3 +1649,38 @@ def breakcycles_replay(cases):
             rec["error"] = "%s: %s" % (type(e).__name__, e)
         out.append(rec)
     return {"results": out}
+
+
+def propagate_replay(cases):
+    """Spec -> code replay for Propagate.tla: LogicFormula.propagate on a literal node table with the given evidence literals."""
+    from problog.formula import LogicFormula
+    from problog.errors import InconsistentEvidenceError
+    FK = 1000000
+    out = []
+    for c in cases:
+        rec = {"id": c["id"]}
+        try:
+            f = LogicFormula(auto_compact=False)
+            for i, n in enumerate(c["g"]):
+                if n["t"] == "atom":
+                    k = f.add_atom(n["id"], 0.5)
+                elif n["t"] == "conj":
+                    k = f.add_and(list(n["ch"]))
+                else:
+                    k = f.add_or(list(n["ch"]))
+                if k != i + 1:
+                    raise RuntimeError("source node %d stored under key %r" % (i + 1, k))
+            cur = {}            # the caller's dictionary is filled in place: its content at the raise is the state of the loop
+            try:
+                ret = f.propagate(list(c["ev"]), cur)
+                rec["status"] = "done" if ret is cur else "malformed"
+            except InconsistentEvidenceError:
+                rec["status"] = "inconsistent"
+            rec["current"] = [(-1 if (i + 1) not in cur else (FK if cur[i + 1] is None else cur[i + 1])) for i in range(len(c["g"]))]
+            extra = [k for k in cur if not (1 <= k <= len(c["g"]))]
+            if extra or any(v not in (-1, 0, FK) for v in rec["current"]):
+                rec["status"] = "malformed"
+        except Exception as e:       # noqa
+            rec["error"] = "%s: %s" % (type(e).__name__, e)
+        out.append(rec)
+    return {"results": out}
